@@ -112,6 +112,58 @@ Definition tomo_validate (n_is_int base_is_circuit : bool) (n input_modes : Z) (
   else if negb exp_is_function then Err TypeError
   else Ok tt.
 
+(* ---------------------------------------------- process tomography: labels *)
+Inductive inlab : Type := XP | XM | YP | YM | ZP | ZM.     (* "X+", "X-", ... *)
+Definition inlab_eqb (a b : inlab) : bool :=
+  match a, b with
+  | XP, XP | XM, XM | YP, YP | YM, YM | ZP, ZP | ZM, ZM => true
+  | _, _ => false
+  end.
+Definition instr := list inlab.
+Fixpoint instr_eqb (a b : instr) : bool :=
+  match a, b with
+  | [], [] => true
+  | x :: a', y :: b' => inlab_eqb x y && instr_eqb a' b'
+  | _, _ => false
+  end.
+(* TOMO_INPUTS of process_tomography.py / process_tomography_li.py / gate_fidelity.py,
+   and of process_tomography_mle.py; key order of RHO_MAPPING / INPUT_MAPPING *)
+Definition li_inputs : list inlab := [ZP; ZM; XP; YP].
+Definition mle_inputs : list inlab := [XP; XM; YP; YM; ZP; ZM].
+Definition rho_keys : list inlab := [XP; XM; YP; YM; ZP; ZM].
+Definition istrings (keys : list inlab) (n : nat) : list instr :=
+  combine_all (@app inlab) (map (fun p => [p]) keys) n.
+(* INPUT_MAPPING[op][0] *)
+Definition input_state (l : inlab) : list Z :=
+  match l with XP | YP | ZP => [1; 0]%Z | XM | YM | ZM => [0; 1]%Z end.
+
+(* ProcessTomography._run_required_experiments, bookkeeping only:
+   the (input, setting) pair of every requested experiment, in order *)
+Definition experiments (inputs : list instr) (req : list mstr) : list (instr * mstr) :=
+  flat_map (fun i => map (fun m => (i, m)) req) inputs.
+
+(* ... and the sorting of the returned results:
+   results[num*i : num*(i+1)] zipped (strict) with req, per input, then the
+   expansion to all measurement strings through the I -> Z mapping *)
+Definition run_required {V} (n : nat) (inputs : list instr) (req : list mstr) (results : list V)
+  : res (list ((instr * mstr) * V)) :=
+  let num := length req in
+  do sorted <- mapM (fun ii_in =>
+                  let chunk := firstn num (skipn (num * fst ii_in) results) in
+                  if Nat.eqb (length chunk) num then Ok (snd ii_in, combine req chunk)
+                  else Err ValueError)
+               (combine (seq 0 (length inputs)) inputs);
+  do full <- mapM (fun in_rd =>
+                  mapM (fun c => match dict_get (replIZ c) (snd in_rd) with
+                                 | Some d => Ok ((fst in_rd, c), d)
+                                 | None => Err KeyError
+                                 end) (tomo_measurements n false)) sorted;
+  Ok (concat full).
+
+Definition assoc_get {V} (k : instr * mstr) (d : list ((instr * mstr) * V)) : option V :=
+  fold_left (fun acc kv => if instr_eqb (fst (fst kv)) (fst k) && mstr_eqb (snd (fst kv)) (snd k)
+                           then Some (snd kv) else acc) d None.
+
 Section Numeric.
   Context {K : Type} (o : ops K) (ii hh : K).
   Local Notation "0" := (k0 o).
@@ -162,7 +214,7 @@ Section Numeric.
     fun i j => A (i / m)%nat (j / m)%nat * B (i mod m)%nat (j mod m)%nat.
 
   (* mat = f(ops[0]); for g in ops[1:]: mat = np.kron(mat, f(g)) *)
-  Definition kfold (f : pauli -> mat) (c : mstr) : mat :=
+  Definition kfold {A : Type} (f : A -> mat) (c : list A) : mat :=
     match c with
     | [] => mid o
     | g :: r => fold_left (fun m g' => kron 2%nat m (f g')) r (f g)
@@ -229,4 +281,171 @@ Section Numeric.
 
   Definition trace (d : nat) (A : mat) : K := sumn o d (fun k => A k k).
   Definition hermitian (d : nat) (A : mat) : Prop := meq d (madj o A) A.
+
+  (* utils.state_fidelity; scipy.linalg.sqrtm (on d x d matrices) and abs() are
+     oracles passed as arguments; their contracts are Section hypotheses in
+     Proofs/TomoStateP.v *)
+  Definition state_fidelity (sqrtm : nat -> mat -> mat) (kabs : K -> K)
+             (d d_exp : nat) (rho rho_exp : mat) : res K :=
+    let rho_root := sqrtm d rho in
+    if negb (Nat.eqb d d_exp) then Err ValueError
+    else
+      let inner := mmul o d (mmul o d rho_root rho_exp) rho_root in
+      Ok (kabs (trace d (sqrtm d inner))).
+
+  (* utils.density_from_state: np.outer(state, conj(state)) *)
+  Definition density_from_state (psi : nat -> K) : mat := fun i j => psi i * conj (psi j).
+
+  (* ======================= process tomography (C16) ======================= *)
+  (* mappings.RHO_MAPPING *)
+  Definition rho_mat (l : inlab) : mat :=
+    match l with
+    | XP => m22 (1 * half) (1 * half) (1 * half) (1 * half)
+    | XM => m22 (1 * half) (kopp o 1 * half) (kopp o 1 * half) (1 * half)
+    | YP => m22 (1 * half) (- ii * half) (ii * half) (1 * half)
+    | YM => m22 (1 * half) (ii * half) (- ii * half) (1 * half)
+    | ZP => m22 1 0 0 0
+    | ZM => m22 0 0 0 1
+    end.
+  (* INPUT_MAPPING[op][1]: H; "r_transform" = H then S; I *)
+  Definition input_gate (l : inlab) : mat :=
+    match l with
+    | XP | XM => had
+    | YP | YM => mmul o 2%nat smat had
+    | ZP | ZM => imat
+    end.
+
+  (* ProcessTomography._create_circuit_and_input: components before the base
+     circuit, components after it, input state *)
+  Definition place (ops : list mat) : list comp :=
+    map (fun iop => ((2 * fst iop)%nat, snd iop)) (combine (seq O (length ops)) ops).
+  Definition create_circuit_and_input (input_op : instr) (output_op : mstr)
+    : (list comp * list comp) * list Z :=
+    ((place (map input_gate input_op), place (map meas_mat output_op)),
+     concat (map input_state input_op)).
+
+  Definition mconj (A : mat) : mat := fun i j => conj (A i j).
+  Definition vec (D : nat) (A : mat) : nat -> K := fun x => A (x / D)%nat (x mod D)%nat.   (* _vec: flatten *)
+  Definition unvec (D : nat) (v : nat -> K) : mat := fun r c => v (r * D + c)%nat.        (* _unvec *)
+
+  (* utils.choi_from_unitary: outer(U.flatten(), conj(U.flatten())) *)
+  Definition choi_from_unitary (dim : nat) (U : mat) : mat :=
+    fun r c => vec dim U r * conj (vec dim U c).
+
+  (* LIProcessTomography._calculate_expectation_values *)
+  Definition expectations (full : list ((instr * mstr) * data)) : res (list ((instr * mstr) * K)) :=
+    mapM (fun kd => do e <- expectation (snd (fst kd)) (snd kd); Ok (fst kd, e)) full.
+
+  (* row of the LI transformation matrix for (in_s, meas):
+     _vec(np.kron(conj(full_rhos[in_s]), full_paulis[meas])).conj() *)
+  Definition li_row (n : nat) (k : instr * mstr) : nat -> K :=
+    let dim := (2 ^ n)%nat in
+    fun x => conj (vec (dim * dim) (kron dim (mconj (kfold rho_mat (fst k))) (kfold pauli_mat (snd k))) x).
+
+  (* LIProcessTomography.process.  [solve N T b] stands for np.linalg.pinv(T) @ b
+     on an N x N system (oracle; contract in Proofs/TomoProcP.v) *)
+  Definition li_process (solve : nat -> mat -> (nat -> K) -> nat -> K)
+             (n : nat) (req : list mstr) (results : list data) : res mat :=
+    do full <- run_required n (istrings li_inputs n) req results;
+    do lams <- expectations full;
+    let dim := (2 ^ n)%nat in
+    let N := length lams in
+    let T : mat := fun i x => li_row n (fst (nth i lams (([], []), 0))) x in
+    let b := fun i => snd (nth i lams (([], []), 0)) in
+    Ok (unvec (dim * dim) (solve N T b)).
+
+  (* utils.process_fidelity *)
+  Definition process_fidelity (sqrtm : nat -> mat -> mat) (kabs : K -> K)
+             (n D D_exp : nat) (choi choi_exp : mat) : res K :=
+    if negb (Nat.eqb D D_exp) then Err ValueError
+    else
+      let w := kinv o (pow2 n) in
+      state_fidelity sqrtm kabs D D_exp (fun i j => choi i j * w) (fun i j => choi_exp i j * w).
+
+  (* ---- GateFidelity ---- *)
+  Definition results_of_input (i : instr) (full : list ((instr * mstr) * data)) : list (mstr * data) :=
+    map (fun kd => (snd (fst kd), snd kd)) (filter (fun kd => instr_eqb (fst (fst kd)) i) full).
+
+  (* _calculate_alpha_and_u_basis: [solve D B b] stands for np.linalg.solve *)
+  Definition u_basis (n : nat) : list mat := map (kfold pauli_mat) (strings pauli_keys n).
+  Definition rho_basis (n : nat) : list mat := map (kfold rho_mat) (istrings li_inputs n).
+  Definition basis_vectors (n : nat) : mat :=        (* column j = vec(rho_basis[j]) *)
+    fun x j => vec (2 ^ n) (nth j (rho_basis n) (mid o)) x.
+  Definition alpha_mat (solve : nat -> mat -> (nat -> K) -> nat -> K) (n : nat) : list (nat -> K) :=
+    map (fun u => solve (4 ^ n)%nat (basis_vectors n) (vec (2 ^ n) u)) (u_basis n).
+
+  Definition ofnat (m : nat) : K := Nat.iter m (fun x => x + 1) 0.
+
+  (* GateFidelity.process; the value before np.real *)
+  Definition gf_process (solve : nat -> mat -> (nat -> K) -> nat -> K)
+             (n : nat) (req : list mstr) (results : list data) (target : mat) : res K :=
+    let all_inputs := istrings li_inputs n in
+    do full <- run_required n all_inputs req results;
+    do rho_vec <- mapM (fun i => density n (results_of_input i full)) all_inputs;
+    let dim := (2 ^ n)%nat in
+    let alpha := alpha_mat solve n in
+    let total :=
+      suml o (combine alpha (u_basis n)) (fun au =>
+        suml o (combine (seq O (length rho_vec)) rho_vec) (fun jr =>
+          fst au (fst jr) *
+          trace dim (mmul o dim (mmul o dim (mmul o dim target (madj o (snd au))) (madj o target)) (snd jr)))) in
+    let d := ofnat dim in
+    Ok ((total + d * d) * kinv o (d * d * (d + 1))).
+
+  (* ---- MLETomographyAlgorithm ---- *)
+  Definition mle_input_basis (n : nat) : list instr := istrings mle_inputs n.
+  Definition mle_meas_basis (n : nat) : list mstr := tomo_measurements n true.
+
+  (* _a_mat: rows 2(len(meas)*i + j) and +1 *)
+  Definition a_rows (n : nat) : list (nat -> K) :=
+    let dim := (2 ^ n)%nat in
+    let w := kinv o (pow2 (2 * n)) in
+    flat_map (fun in_s =>
+      flat_map (fun meas =>
+        let obs := kfold pauli_mat meas in
+        let proj (s : bool) : mat := fun i j => (mid o i j + sg s * obs i j) * half in
+        let row (s : bool) : nat -> K :=
+          fun x => vec (dim * dim) (kron dim (kfold rho_mat in_s) (mtrans (proj s))) x * w in
+        [row false; row true]) (mle_meas_basis n)) (mle_input_basis n).
+
+  (* _n_vec_from_data *)
+  Definition n_vec_from_data (n : nat) (dt : list ((instr * mstr) * K)) : res (list K) :=
+    let len := ofnat (length dt) in
+    do l <- mapM (fun in_s =>
+              mapM (fun meas => match assoc_get (in_s, meas) dt with
+                                | Some v => Ok [(1 + v) * half * kinv o len; (1 - v) * half * kinv o len]
+                                | None => Err KeyError
+                                end) (mle_meas_basis n)) (mle_input_basis n);
+    Ok (concat (concat l)).
+
+  (* 1e-8 *)
+  Definition clip_min : K := kinv o (kofZ o 100000000).
+  (* _p_vec: (A @ vec(choi.T)).clip(1e-8); p_lin is the value before clipping *)
+  Definition p_lin (n : nat) (choi : mat) : list K :=
+    let D := (4 ^ n)%nat in
+    map (fun row => sumn o (D * D) (fun x => row x * vec D (mtrans choi) x)) (a_rows n).
+  Definition clip (x : K) : K := if kleb o clip_min x then x else clip_min.
+  Definition p_vec (n : nat) (choi : mat) : list K := map clip (p_lin n choi).
+
+  (* _gradient: -unvec(conj(A.T) @ (n_vec / p_vec(choi))) *)
+  Definition gradient (n : nat) (choi : mat) (n_vec : list K) : mat :=
+    let D := (4 ^ n)%nat in
+    let w := map (fun np => fst np * kinv o (snd np)) (combine n_vec (p_vec n choi)) in
+    let rows := combine (a_rows n) w in
+    unvec D (fun x => - suml o rows (fun rw => conj (fst rw x) * snd rw)).
+
+  (* _tp_proj on a 4^n x 4^n matrix *)
+  Definition partial_trace (dim : nat) (choi : mat) : mat :=
+    fun i j => sumn o dim (fun k => choi (i * dim + k)%nat (j * dim + k)%nat).
+  Definition tp_proj (n : nat) (choi : mat) : mat :=
+    let dim := (2 ^ n)%nat in
+    let variation : mat := fun i j => partial_trace dim choi i j - mid o i j in
+    fun r c => choi r c - kron dim (fun i j => variation i j * kinv o (pow2 n)) (mid o) r c.
+
+  (* MLEProcessTomography.process up to the call of pgdb: the dictionary nij *)
+  Definition mle_nij (n : nat) (req : list mstr) (results : list data) : res (list ((instr * mstr) * K)) :=
+    do full <- run_required n (istrings mle_inputs n) req results;
+    expectations (filter (fun kd => negb (mstr_eqb (snd (fst kd)) (repeat PI n))) full).
+  (* the starting point of pgdb *)
+  Definition mle_start (n : nat) : mat := fun i j => mid o i j * kinv o (pow2 n).
 End Numeric.
